@@ -137,24 +137,29 @@ func gflagvar() (*bool, string, bool, string) { return nil, "", false, "" }
 // Builtins are unqualified subject names; Qualified are pkg.F subjects with their import path.
 var Builtins = []string{"append", "new", "len", "cap", "copy", "make", "panic", "print", "println", "recover", "delete", "close", "min", "max", "nil", "true", "int", "string", "error", "bool"}
 
-type QName struct{ Pkg, Path, Fn string }
+type QName struct {
+	Pkg, Path, Fn string
+	// ImportAs is the name under which the real package is imported in the "+import" declaration kinds
+	// (default: Pkg). The metamorphic twin renames only the shadowing declaration, not the import.
+	ImportAs string
+}
 
 var Qualified = []QName{
-	{"regexp", "regexp", "Compile"}, {"regexp", "regexp", "MustCompile"}, {"regexp", "regexp", "CompilePOSIX"}, {"regexp", "regexp", "MustCompilePosix"},
-	{"sort", "sort", "Slice"}, {"sort", "sort", "SliceStable"},
-	{"filepath", "path/filepath", "Join"},
-	{"log", "log", "Fatal"}, {"log", "log", "Fatalf"}, {"log", "log", "Fatalln"}, {"os", "os", "Exit"},
-	{"flag", "flag", "Bool"}, {"flag", "flag", "BoolVar"}, {"flag", "flag", "String"},
-	{"strings", "strings", "Index"}, {"strings", "strings", "Compare"}, {"strings", "strings", "ToLower"}, {"strings", "strings", "Replace"}, {"strings", "strings", "SplitN"},
-	{"bytes", "bytes", "Index"}, {"bytes", "bytes", "Compare"},
-	{"fmt", "fmt", "Sprint"}, {"fmt", "fmt", "Sprintf"}, {"fmt", "fmt", "Errorf"}, {"fmt", "fmt", "Fprintf"},
-	{"http", "net/http", "Error"}, {"http", "net/http", "NewRequest"},
-	{"time", "time", "Now"}, {"time", "time", "Since"},
-	{"utf8", "unicode/utf8", "DecodeRuneInString"},
-	{"errors", "errors", "New"},
-	{"sync", "sync", "OnceFunc"},
-	{"io", "io", "WriteString"},
-	{"atomic", "sync/atomic", "AddInt32"},
+	{"regexp", "regexp", "Compile", ""}, {"regexp", "regexp", "MustCompile", ""}, {"regexp", "regexp", "CompilePOSIX", ""}, {"regexp", "regexp", "MustCompilePosix", ""},
+	{"sort", "sort", "Slice", ""}, {"sort", "sort", "SliceStable", ""},
+	{"filepath", "path/filepath", "Join", ""},
+	{"log", "log", "Fatal", ""}, {"log", "log", "Fatalf", ""}, {"log", "log", "Fatalln", ""}, {"os", "os", "Exit", ""},
+	{"flag", "flag", "Bool", ""}, {"flag", "flag", "BoolVar", ""}, {"flag", "flag", "String", ""},
+	{"strings", "strings", "Index", ""}, {"strings", "strings", "Compare", ""}, {"strings", "strings", "ToLower", ""}, {"strings", "strings", "Replace", ""}, {"strings", "strings", "SplitN", ""},
+	{"bytes", "bytes", "Index", ""}, {"bytes", "bytes", "Compare", ""},
+	{"fmt", "fmt", "Sprint", ""}, {"fmt", "fmt", "Sprintf", ""}, {"fmt", "fmt", "Errorf", ""}, {"fmt", "fmt", "Fprintf", ""},
+	{"http", "net/http", "Error", ""}, {"http", "net/http", "NewRequest", ""},
+	{"time", "time", "Now", ""}, {"time", "time", "Since", ""},
+	{"utf8", "unicode/utf8", "DecodeRuneInString", ""},
+	{"errors", "errors", "New", ""},
+	{"sync", "sync", "OnceFunc", ""},
+	{"io", "io", "WriteString", ""},
+	{"atomic", "sync/atomic", "AddInt32", ""},
 }
 
 // DeclKinds for unqualified names.
@@ -239,12 +244,20 @@ func ShadowQualified(q QName, decl string, sig Sig, args, ctx string) Prog {
 		imp = fmt.Sprintf("import %s \"%s\"\n", q.Pkg, FakePath(q, sig))
 	case "param+import":
 		// the file really imports the package; a parameter of the same name shadows it inside subject()
-		imp = fmt.Sprintf("import %s \"%s\"\n", q.Pkg, q.Path)
-		top = fmt.Sprintf("type vrecv struct{ %s %s }\nfunc keepImport() { _ = %s.%s }\n", q.Fn, ftype, q.Pkg, q.Fn)
+		as := q.ImportAs
+		if as == "" {
+			as = q.Pkg
+		}
+		imp = fmt.Sprintf("import %s \"%s\"\n", as, q.Path)
+		top = fmt.Sprintf("type vrecv struct{ %s %s }\nfunc keepImport() { _ = %s.%s }\n", q.Fn, ftype, as, q.Fn)
 		params = q.Pkg + " *vrecv"
 	case "localvar+import":
-		imp = fmt.Sprintf("import %s \"%s\"\n", q.Pkg, q.Path)
-		top = fmt.Sprintf("type vrecv struct{}\nfunc (vrecv) %s(%s) %s %s\nfunc keepImport() { _ = %s.%s }\n", q.Fn, sig.Params, sig.Results, body(sig), q.Pkg, q.Fn)
+		as := q.ImportAs
+		if as == "" {
+			as = q.Pkg
+		}
+		imp = fmt.Sprintf("import %s \"%s\"\n", as, q.Path)
+		top = fmt.Sprintf("type vrecv struct{}\nfunc (vrecv) %s(%s) %s %s\nfunc keepImport() { _ = %s.%s }\n", q.Fn, sig.Params, sig.Results, body(sig), as, q.Fn)
 		pre = fmt.Sprintf("var %s vrecv\n\t", q.Pkg)
 	}
 	stmt := strings.ReplaceAll(ctx, "%s", call)
